@@ -1353,7 +1353,7 @@ pub fn generate(seed: u64, index: u32) -> SynthFont {
                 // see notes in the final report) -- real letter shapes are what the
                 // corpus part covers.
                 let letter_like = matches!(&g.glyphs[gid as usize].recipe, Recipe::Simple { kind, .. } if kind.split('+').all(|k| k == "rect" || k == "round"));
-                if g.glyphs[gid as usize].autohint_ok && (letter_like || !g.avoid_known) {
+                if g.glyphs[gid as usize].autohint_ok && letter_like {
                     mappings.push((ch, gid));
                 }
             }
